@@ -34,6 +34,60 @@ func oneOf(before any, nodes []vref.Node, got any, f func(one []vref.Node) any) 
 	return ok
 }
 
+// atStrict is vref.At with an absent map member reported as absent.
+func atStrict(v any, p []any) (any, bool) {
+	cur := v
+	for _, k := range p {
+		switch tk := k.(type) {
+		case string:
+			m, ok := cur.(map[string]any)
+			if !ok {
+				return nil, false
+			}
+			if cur, ok = m[tk]; !ok {
+				return nil, false
+			}
+		case int:
+			a, ok := cur.([]any)
+			if !ok || tk < 0 || tk >= len(a) {
+				return nil, false
+			}
+			cur = a[tk]
+		}
+	}
+	return cur, true
+}
+
+// mutationMatches: the outcome (data mutated in place, or result) is the
+// reference mutation of before at the given locations.
+func mutationMatches(op int, before any, nodes []vref.Node, data, result any, newVal any) bool {
+	ok := true
+	switch op {
+	case opSet:
+		ok = vref.TreeEqual(data, vref.SetAll(before, nodes, func(any) any { return newVal }))
+	case opSetOne:
+		ok = oneOf(before, nodes, data, func(one []vref.Node) any {
+			return vref.SetAll(before, one, func(any) any { return newVal })
+		})
+	case opDel:
+		// a deleted map member is gone; a deleted array element is gone or nil
+		ok = vx.Or(vref.TreeEqual(data, vref.RemoveAll(before, nodes, false)), vref.TreeEqual(data, vref.RemoveAll(before, nodes, true)))
+	case opDelOne:
+		ok = vx.Or(
+			oneOf(before, nodes, data, func(one []vref.Node) any { return vref.RemoveAll(before, one, false) }),
+			oneOf(before, nodes, data, func(one []vref.Node) any { return vref.RemoveAll(before, one, true) }))
+	case opRemove:
+		ok = vref.TreeEqual(result, vref.RemoveAll(before, nodes, false))
+	case opRemoveOne:
+		ok = oneOf(before, nodes, result, func(one []vref.Node) any { return vref.RemoveAll(before, one, false) })
+	case opModify:
+		ok = vref.TreeEqual(result, vref.SetAll(before, nodes, tagged))
+	case opModifyOne:
+		ok = oneOf(before, nodes, result, func(one []vref.Node) any { return vref.SetAll(before, one, tagged) })
+	}
+	return ok
+}
+
 // VerifC13_Mutate: Set/SetOne, Del/DelOne, Remove/RemoveOne, Modify/ModifyOne
 // against reference mutations applied to the locations the reference
 // selector picks; same data x path space as C05.
@@ -106,43 +160,78 @@ func VerifC13_Mutate() {
 			}
 		}
 	}
-	ok := true
-	switch op {
-	case opSet:
-		if len(nodes) == 0 {
-			vx.Cover("set-creates", true) // creation along child/index chains is not asserted
-			return
-		}
-		ok = vref.TreeEqual(data, vref.SetAll(before, nodes, func(any) any { return newVal }))
-	case opSetOne:
-		if len(nodes) == 0 {
-			vx.Cover("set-creates", true)
-			return
-		}
-		ok = oneOf(before, nodes, data, func(one []vref.Node) any {
-			return vref.SetAll(before, one, func(any) any { return newVal })
-		})
-	case opDel:
-		// a deleted map member is gone; a deleted array element is gone or nil
-		ok = vx.Or(vref.TreeEqual(data, vref.RemoveAll(before, nodes, false)), vref.TreeEqual(data, vref.RemoveAll(before, nodes, true)))
-	case opDelOne:
-		ok = vx.Or(
-			oneOf(before, nodes, data, func(one []vref.Node) any { return vref.RemoveAll(before, one, false) }),
-			oneOf(before, nodes, data, func(one []vref.Node) any { return vref.RemoveAll(before, one, true) }))
-	case opRemove:
-		ok = vref.TreeEqual(result, vref.RemoveAll(before, nodes, false))
-	case opRemoveOne:
-		ok = oneOf(before, nodes, result, func(one []vref.Node) any { return vref.RemoveAll(before, one, false) })
-	case opModify:
-		ok = vref.TreeEqual(result, vref.SetAll(before, nodes, tagged))
-	case opModifyOne:
-		ok = oneOf(before, nodes, result, func(one []vref.Node) any { return vref.SetAll(before, one, tagged) })
+	if (op == opSet || op == opSetOne) && len(nodes) == 0 {
+		vx.Cover("set-creates", true) // creation along child/index chains is not asserted
+		return
 	}
+	ok := mutationMatches(op, before, nodes, data, result, newVal)
 	if !ok {
 		vx.Key("slice", sliceCase(rf))
 		vx.Key("nsel", len(nodes))
+		// label: is the outcome what reading every slice with an inclusive
+		// end (known finding C13-slice-inclusive-end) would give?
+		rfi := append([]vref.PFrag{}, rf...)
+		hasSlice := false
+		for k := range rfi {
+			if rfi[k].Kind == vref.FSlice {
+				rfi[k].InclEnd = true
+				hasSlice = true
+			}
+		}
+		incl := "false"
+		if hasSlice {
+			if mutationMatches(op, before, vref.Select(rfi, before).Nodes, data, result, newVal) {
+				incl = "true"
+			}
+		}
+		vx.Key("incl", incl)
 	}
 	vx.Assert("mutation-matches-reference", ok)
+	// Independent of how the end of a slice is read (known finding
+	// C13-slice-inclusive-end): a value-replacing operation changes nothing
+	// outside the slice's grid start, start+step, ...
+	if op == opSet || op == opSetOne || op == opModify || op == opModifyOne {
+		rfg := append([]vref.PFrag{}, rf...)
+		nslice := 0
+		for k := range rfg {
+			if rfg[k].Kind == vref.FSlice {
+				rfg[k].Grid = true
+				nslice++
+			}
+		}
+		if nslice > 0 {
+			after := data
+			if op == opModify || op == opModifyOne {
+				after = result
+			}
+			grid := vref.Select(rfg, before).Nodes
+			lastF := rfg[len(rfg)-1]
+			if op == opSet || op == opSetOne {
+				// Set may create the member a child fragment names in every
+				// parent on the grid (creation is exempt, but must stay there)
+				switch lastF.Kind {
+				case vref.FChild:
+					grid = nil
+					for _, pn := range vref.Select(rfg[:len(rfg)-1], before).Nodes {
+						if _, isMap := pn.Val.(map[string]any); isMap {
+							grid = append(grid, vref.Node{Path: append(append([]any{}, pn.Path...), lastF.Key)})
+						}
+					}
+				case vref.FNth, vref.FUnion:
+					nslice = 0 // creation inside arrays: not asserted
+				}
+			}
+			if nslice > 0 && !vref.Overlapping(grid) {
+				patched := vref.Copy(before)
+				for _, g := range grid {
+					if v, has := atStrict(after, g.Path); has {
+						patched = vref.SetAll(patched, []vref.Node{g}, func(any) any { return v })
+					}
+				}
+				vx.Assert("changes-stay-on-slice-grid", vref.TreeEqual(after, patched))
+			}
+		}
+	}
 	vx.Cover("changed", len(nodes) > 0)
 	vx.Cover("nothing-selected", len(nodes) == 0)
 }
